@@ -223,10 +223,13 @@ def scenario_concurrent(remote, nthreads=3, with_prepare=True):
         barrier.wait()
         if with_prepare and i == 0:
             op(rec, name, 1, 'Prep', env.prepare)
-        # the start-up half of a first call; the request itself is sent below, one thread at
-        # a time (a multiprocessing connection is not safe for concurrent send/recv, which is
-        # outside the property)
-        results[i] = op(rec, name, 2, 'Call', env.run)
+        # a complete first call from every thread at once; each must get the reply to its own request
+        def call():
+            r = env.eval('return %d' % (100 + i))
+            if r != 100 + i:
+                raise AssertionError('the reply of another call: %r instead of %d' % (r, 100 + i))
+            return r
+        results[i] = op(rec, name, 2, 'Call', call)
     ths = [threading.Thread(target=body, args=(i,), name='T%d' % i) for i in range(nthreads)]
     for th in ths:
         th.start()
